@@ -104,6 +104,9 @@ impl TypeChecker {
         // prevent peaks in memory residency
         let mut counter = 0;
         while let Some(value) = result_values.pop_front() {
+            #[cfg(sle_verif)]
+            crate::verif::emit(crate::verif::Event::LoopIter { site: "tc::lift" });
+
             // If we have been told to stop, stop and return an error.
             if counter % polling_interval == 0 && self.watchdog.should_stop() {
                 Err(Error::StoppedByWatchdog).locate(value.instruction_pointer())?;
@@ -143,6 +146,9 @@ impl TypeChecker {
         // and prevent peaks in memory residency
         let mut counter = 0;
         while let Some(value) = values.pop_front() {
+            #[cfg(sle_verif)]
+            crate::verif::emit(crate::verif::Event::LoopIter { site: "tc::assign" });
+
             // If we have been told to stop, stop and return an error
             if counter % polling_interval == 0 && self.watchdog.should_stop() {
                 Err(Error::StoppedByWatchdog).locate(value.instruction_pointer())?;
@@ -172,6 +178,9 @@ impl TypeChecker {
         let polling_interval = self.watchdog.poll_every();
 
         for (counter, value) in values.into_iter().enumerate() {
+            #[cfg(sle_verif)]
+            crate::verif::emit(crate::verif::Event::LoopIter { site: "tc::infer" });
+
             // If we have been told to stop, stop and return an error.
             if counter % polling_interval == 0 && self.watchdog.should_stop() {
                 Err(Error::StoppedByWatchdog).locate(value.instruction_pointer())?;
@@ -216,6 +225,9 @@ impl TypeChecker {
         let polling_interval = self.watchdog.poll_every();
 
         for (count, slot) in constant_storage_slots.into_iter().enumerate() {
+            #[cfg(sle_verif)]
+            crate::verif::emit(crate::verif::Event::LoopIter { site: "tc::layout" });
+
             // If we have been told to stop, stop and return an error
             if count % polling_interval == 0 && self.watchdog.should_stop() {
                 Err(Error::StoppedByWatchdog).locate(slot.instruction_pointer())?;
